@@ -9,7 +9,7 @@ export GOFLAGS=-mod=mod GOPROXY=off GOSUMDB=off GOTOOLCHAIN=local
 id=$1; out=$2; wt=$3
 log() { echo "[seed_verify $id] $*"; }
 cd "$wt" || exit 2
-git checkout -q -- . ; git clean -fdq
+git reset -q --hard; git clean -fdq
 demo_dir=$(python3 -c "import json;print(json.load(open('$out/meta.json')).get('demo_dir','.'))")
 git apply --check "$out/patch.diff" || { log "patch does not apply"; exit 1; }
 git apply "$out/patch.diff"
@@ -30,7 +30,7 @@ git apply -R "$out/patch.diff"
 (cd "$demo_dir" && go test -vet=off -count=1 . > /tmp/seed/$id.demo_without.log 2>&1) || { log "demo FAILS without patch (bad)"; tail -20 /tmp/seed/$id.demo_without.log; exit 1; }
 log "demo passes without patch"
 rm -f "$demo_dir/zz_seed_demo_test.go"
-git checkout -q -- . ; git clean -fdq
+git reset -q --hard; git clean -fdq
 mkdir -p /verif/seeded/$id
 cp "$out/patch.diff" /verif/seeded/$id/patch.diff
 cp "$out/zz_seed_demo_test.go" /verif/seeded/$id/zz_seed_demo_test.go
